@@ -252,6 +252,55 @@ type poolKey struct {
 type pool struct {
 	m    map[poolKey]reflect.Value
 	hits int
+	// scheme != 0: every slice of one type that is built becomes a window of ONE backing
+	// array of that type (the n-th slice gets the n-th window of the scheme)
+	scheme int
+	bufs   map[reflect.Type]reflect.Value
+	wcount map[reflect.Type]int
+}
+
+var windowSchemes = []struct {
+	name string
+	win  [][2]int
+}{
+	{},
+	{"same start, different lengths", [][2]int{{0, 2}, {0, 5}, {0, 3}, {0, 4}}},
+	{"different starts, overlapping", [][2]int{{0, 3}, {1, 4}, {2, 6}, {3, 5}}},
+	{"nested windows", [][2]int{{0, 6}, {1, 5}, {2, 4}, {2, 3}}},
+	{"a slice with spare capacity and its own sub-slices", [][2]int{{0, 3}, {1, 2}, {0, 1}, {2, 3}}},
+}
+
+const windowArrayLen = 6
+
+func newWindowPool(scheme int) *pool {
+	return &pool{m: map[poolKey]reflect.Value{}, scheme: scheme, bufs: map[reflect.Type]reflect.Value{}, wcount: map[reflect.Type]int{}}
+}
+
+// window returns the next window of the scheme over the pool's backing array for slice type t.
+func (p *pool) window(t reflect.Type) reflect.Value {
+	buf, ok := p.bufs[t]
+	if !ok {
+		ed := domainOf(t.Elem())
+		buf = reflect.MakeSlice(t, windowArrayLen, windowArrayLen)
+		p.bufs[t] = buf // before filling: elements of the same type cannot occur (no recursive types)
+		for j := 0; j < windowArrayLen; j++ {
+			buf.Index(j).Set(ed.elems[(j+1)%len(ed.elems)].build(p))
+		}
+	}
+	w := windowSchemes[p.scheme].win
+	n := p.wcount[t]
+	p.wcount[t] = n + 1
+	return buf.Slice(w[n%len(w)][0], w[n%len(w)][1])
+}
+
+func (p *pool) maxWindows() int {
+	m := 0
+	for _, c := range p.wcount {
+		if c > m {
+			m = c
+		}
+	}
+	return m
 }
 
 type elem struct {
@@ -271,6 +320,9 @@ func pooled(t reflect.Type, idx int, mk func(p *pool) reflect.Value) func(p *poo
 	return func(p *pool) reflect.Value {
 		if p == nil {
 			return mk(nil)
+		}
+		if p.scheme != 0 && t.Kind() == reflect.Slice {
+			return p.window(t)
 		}
 		k := poolKey{t, idx}
 		if v, ok := p.m[k]; ok {
@@ -550,6 +602,39 @@ func domainOf(t reflect.Type) *domain {
 				}
 				return e.build(&pool{m: map[poolKey]reflect.Value{}})
 			}})
+		}
+	}
+	// slices of one type as windows of one backing array (same start and different lengths,
+	// different starts, nested, sub-slices of a slice with spare capacity), wherever a value
+	// holds at least two slices of the same type
+	if d.refLike && t.Kind() == reflect.Struct || t.Kind() == reflect.Slice || t.Kind() == reflect.Map {
+		base := append([]elem(nil), d.elems...)
+		domCache[t] = d // window() looks element domains up; t itself may be asked for through a parent only
+		type cand struct {
+			e elem
+			n int
+		}
+		var cands []cand
+		for _, e := range base {
+			if strings.Contains(e.desc, "windows of one array") {
+				continue
+			}
+			p := newWindowPool(1)
+			e.build(p)
+			if n := p.maxWindows(); n >= 2 {
+				cands = append(cands, cand{e, n})
+			}
+		}
+		sort.SliceStable(cands, func(i, j int) bool { return cands[i].n > cands[j].n })
+		if len(cands) > 2 {
+			cands = cands[:2]
+		}
+		for _, c := range cands {
+			for sc := 1; sc < len(windowSchemes); sc++ {
+				e, sc := c.e, sc
+				d.elems = append(d.elems, elem{fmt.Sprintf("slices of one type as windows of one array (%s), in the shape of %s", windowSchemes[sc].name, e.desc),
+					func(*pool) reflect.Value { return e.build(newWindowPool(sc)) }})
+			}
 		}
 	}
 	domCache[t] = d
@@ -1008,6 +1093,10 @@ func attribute(name string, t reflect.Type, f *Finding) (key, note string) {
 		if sub.Key != "" {
 			return sub.Key, "\nsmallest failing sub-instance: " + sub.Msg
 		}
+		if f.kind == "" && strings.HasSuffix(f.Key, "/not-equal") {
+			// the component's instance is right on its own whole domain: the enclosing combinator put the wrong value there
+			return "clone." + combinator(t) + "/not-equal", "\n(the component instance " + c.Name + " alone clones every value of its domain correctly)"
+		}
 	}
 	if f.kind != "" && f.loose {
 		key = "clone." + combinator(t) + "/shares-component-" + f.kind
@@ -1037,7 +1126,10 @@ func check(h *Run, t reflect.Type, cloneOf func(orig reflect.Value) reflect.Valu
 	// census (also for the executions that end in a violation)
 	x.Tag("outermost=" + combinator(t))
 	x.Tag(fmt.Sprintf("storage-regions=%d", min(len(ex.ro), 8)))
-	if strings.Contains(e.desc, "aliased") || strings.Contains(e.desc, "s[1:]") {
+	if strings.Contains(e.desc, "windows of one array") {
+		x.Tag("slices-as-windows-of-one-array")
+	}
+	if strings.Contains(e.desc, "aliased") || strings.Contains(e.desc, "s[1:]") || strings.Contains(e.desc, "windows of one array") {
 		x.Tag("internally-aliased-input")
 	}
 	if strings.Contains(e.desc, "spare capacity") {
